@@ -259,10 +259,6 @@ func init() {
 			}}}, true
 		},
 		// ---- misc ----
-		"encoding/json.Marshal": func(in *Interp, fr *Frame, a []Value) (Value, bool) {
-			at := in.newAtom("json", in.freshName("doc"))
-			return tuple(Value{K: KSlice, R: &SliceV{S: []Value{{K: KOpaque, R: &OpaqueBytes{A: at, Tag: "json"}}}}}, nilErr), true
-		},
 		"strconv.Itoa": func(in *Interp, fr *Frame, a []Value) (Value, bool) {
 			if a[0].R != nil {
 				unsupported("Itoa of symbolic")
